@@ -16,8 +16,12 @@ What is proved:
   boolean and/or/not, so conditions built from comparisons branch identically.
 * kernel-checked witnesses of the two precedence mismatches (`-B^2`, sign scope).
 
-Not proved: that the tree BASIC09 derives equals the tree Color BASIC derives from the source
-(`same_tree` of the design).  That comparison is made semantically on the real code by the
+* `same_tree_binary` — for every chain joined by the fragment's binary operators, BASIC09's ladder
+  and Color BASIC's table give the same tree (`regroup_congr`: regrouping depends on a table only
+  through how it classifies the operators that occur; `tables_agree` by `decide`).
+
+Not proved: the same for chains with prefix operators - it is false there (the witnesses, the
+findings).  Values are compared semantically on the real code by the
 expression suite (all shapes up to 3 operators, random larger ones, six contexts, four
 environments); five known-finding classes.
 -/
@@ -77,5 +81,140 @@ theorem and_or_not_bits : ∀ p q : Bool,
     ∧ signed16 (or16 (truth p) (truth q)) = truth (p || q)
     ∧ signed16 (-(truth p) - 1) = truth (!p) := by
   decide
+
+/-! ### both languages group a chain of binary operators alike -/
+
+/-- Color BASIC's binary levels, lowest first (its prefix operators `-` and `NOT` are not here: they are
+where the two languages differ, see the witnesses) -/
+def decbLevels : Levels :=
+  [["OR"], ["AND"], ["=", "<>", "<", ">", "<=", ">=", "=<", "=>"], ["+", "-"], ["*", "/"], ["^"]]
+
+/-- the operators both tables know -/
+def commonOps : List String := ["OR", "AND", "=", "<>", "<", ">", "<=", ">=", "=<", "=>", "+", "-", "*", "/", "^"]
+
+def OpsIn (S : List String) (r : List (String × Operand)) : Prop := ∀ p ∈ r, p.1 ∈ S
+
+/-- two tables that classify every operator of `S` alike, level by level -/
+def Agree (S : List String) : Levels → Levels → Prop
+  | [], [] => True
+  | a :: as, b :: bs => (∀ o ∈ S, o ∈ a ↔ o ∈ b) ∧ Agree S as bs
+  | _, _ => False
+
+theorem cut_congr (S a b : List String) (h : ∀ o ∈ S, o ∈ a ↔ o ∈ b) :
+    ∀ r, OpsIn S r → cut a r = cut b r
+  | [], _ => rfl
+  | (o, x) :: r, hr => by
+      have ho : o ∈ S := hr (o, x) (by simp)
+      have hrest : OpsIn S r := fun p hp => hr p (by simp [hp])
+      have ih := cut_congr S a b h r hrest
+      by_cases ha : o ∈ a
+      · have hb : o ∈ b := (h o ho).mp ha
+        simp [cut, ha, hb]
+      · have hb : o ∉ b := fun hb => ha ((h o ho).mpr hb)
+        simp [cut, ha, hb, ih]
+
+theorem cut_opsIn (S ops : List String) : ∀ r, OpsIn S r → OpsIn S (cut ops r).1 ∧ OpsIn S (cut ops r).2
+  | [], _ => by simp [cut, OpsIn]
+  | (o, x) :: r, hr => by
+      have hrest : OpsIn S r := fun p hp => hr p (by simp [hp])
+      have ih := cut_opsIn S ops r hrest
+      by_cases ho : o ∈ ops
+      · simp only [cut, ho, if_true]
+        exact ⟨by simp [OpsIn], hr⟩
+      · simp only [cut, ho, if_false]
+        refine ⟨?_, ih.2⟩
+        intro p hp
+        simp only [List.mem_cons] at hp
+        rcases hp with rfl | hp
+        · exact hr (o, x) (by simp)
+        · exact ih.1 p hp
+
+theorem segs_congr (S a b : List String) (h : ∀ o ∈ S, o ∈ a ↔ o ∈ b) :
+    ∀ (fuel : Nat) (first : Operand) (rest : List (String × Operand)), OpsIn S rest →
+      segs a fuel first rest = segs b fuel first rest
+  | fuel, first, rest, hr => by
+      have hc := cut_congr S a b h rest hr
+      have ho := cut_opsIn S a rest hr
+      unfold segs
+      rw [← hc]
+      generalize hcut : cut a rest = ab at ho
+      obtain ⟨p, q⟩ := ab
+      cases q with
+      | nil => cases fuel <;> rfl
+      | cons y r =>
+          obtain ⟨o, x⟩ := y
+          cases fuel with
+          | zero => rfl
+          | succ f =>
+              have hr' : OpsIn S r := fun z hz => ho.2 z (by simp [hz])
+              have ih := segs_congr S a b h f x r hr'
+              simp only [ih]
+
+theorem segs_opsIn (S ops : List String) :
+    ∀ (fuel : Nat) (first : Operand) (rest : List (String × Operand)), OpsIn S rest →
+      OpsIn S (segs ops fuel first rest).1.rest ∧ ∀ p ∈ (segs ops fuel first rest).2, OpsIn S p.2.rest
+  | fuel, first, rest, hr => by
+      have ho := cut_opsIn S ops rest hr
+      unfold segs
+      generalize hcut : cut ops rest = ab at ho
+      obtain ⟨p, q⟩ := ab
+      cases q with
+      | nil => cases fuel <;> exact ⟨ho.1, by simp⟩
+      | cons y r =>
+          obtain ⟨o, x⟩ := y
+          cases fuel with
+          | zero => exact ⟨ho.1, by simp⟩
+          | succ f =>
+              have hr' : OpsIn S r := fun z hz => ho.2 z (by simp [hz])
+              have ih := segs_opsIn S ops f x r hr'
+              refine ⟨ho.1, ?_⟩
+              intro z hz
+              simp only [List.mem_cons] at hz
+              rcases hz with rfl | hz
+              · exact ih.1
+              · exact ih.2 z hz
+
+theorem foldl_congr {α β : Type} (f g : β → α → β) (l : List α) (h : ∀ acc, ∀ x ∈ l, f acc x = g acc x) :
+    ∀ init, l.foldl f init = l.foldl g init := by
+  induction l with
+  | nil => intro; rfl
+  | cons x xs ih =>
+      intro init
+      simp only [List.foldl_cons]
+      rw [h init x (by simp)]
+      exact ih (fun acc y hy => h acc y (by simp [hy])) _
+
+/-- regrouping depends on a table only through how it classifies the operators that occur -/
+theorem regroup_congr (S : List String) : ∀ (lv lv' : Levels), Agree S lv lv' →
+    ∀ c : Chain, OpsIn S c.rest → regroup lv c = regroup lv' c
+  | [], [], _, c, _ => rfl
+  | a :: as, b :: bs, h, c, hc => by
+      have hseg := segs_congr S a b h.1 c.rest.length c.first c.rest hc
+      have hin := segs_opsIn S a c.rest.length c.first c.rest hc
+      simp only [regroup]
+      rw [← hseg]
+      generalize segs a c.rest.length c.first c.rest = sm at hin
+      obtain ⟨s0, more⟩ := sm
+      simp only
+      rw [regroup_congr S as bs h.2 s0 hin.1]
+      apply foldl_congr
+      intro acc p hp
+      rw [regroup_congr S as bs h.2 p.2 (hin.2 p hp)]
+  | [], _ :: _, h, _, _ => by simp [Agree] at h
+  | _ :: _, [], h, _, _ => by simp [Agree] at h
+
+theorem tables_agree : Agree commonOps b09Levels decbLevels := by
+  simp only [Agree, b09Levels, decbLevels, commonOps]
+  decide
+
+/-- **same tree for sign-free chains**: for every chain of operands joined by the binary operators
+of the fragment - any length, any operands - BASIC09's ladder and Color BASIC's table group the
+flat text into the same tree.  With `emit_chain_flat` (the tool writes the chain flat) and
+`b09_reads_flat_chain` (BASIC09 derives `regroup b09Levels`) this is the "must re-group into exactly
+the operator tree Color BASIC would have built" of the property, for chains without prefix
+operators; the prefix operators (`-` before `^`, the scope of NOT) are where it fails: the findings. -/
+theorem same_tree_binary (c : Chain) (h : OpsIn commonOps c.rest) :
+    regroup b09Levels c = regroup decbLevels c :=
+  regroup_congr commonOps b09Levels decbLevels tables_agree c h
 
 end CocoVerif.Props.C01
